@@ -97,6 +97,7 @@ def expected_paths_with_hops(g, a, z, hops):
 
 
 STITCHED = [0]
+REFUSED = [0]
 
 
 def install(imps, store, g, rng, ndecoy, stitch=False):
@@ -113,6 +114,16 @@ def install(imps, store, g, rng, ndecoy, stitch=False):
         if d == 0:
             dedges0 = dedges
         imp.storage.add_graph(f'decoy{d}', rawgraph.to_nx(G(ids, dcls, dedges).desc(), key_style=rng.randrange(3)))
+    if ndecoy and rng.random() < 0.3:
+        # an import the store refuses (a node without NodeID among connected nodes) just before the target arrives: it must
+        # leave nothing the target's queries could walk into
+        bad = rawgraph.to_nx(G(g.ids, g.cls, {frozenset(p): 'connects' for p in itertools.combinations(g.ids, 2)}).desc(), key_style=0)
+        if len(bad.nodes) >= 2:
+            bad.nodes[list(bad.nodes)[-1]].pop('NodeID', None)
+            try:
+                imp.storage.add_graph('refused', bad)
+            except Exception:
+                REFUSED[0] += 1
     imp.storage.add_graph('target', rawgraph.to_nx(g.desc(), key_style=rng.randrange(3)))
     if ndecoy:
         imp.storage.add_graph('decoy-after', rawgraph.to_nx(G(g.ids, g.cls, {}).desc(), key_style=0))
@@ -365,6 +376,7 @@ def run(ctx):
                 ctx.info['exhaustive_cut_short_by_time_budget'] = 1
                 break
     ctx.count('graphs:stitched-to-a-decoy(cross-graph edges present)', STITCHED[0])
+    ctx.count('graphs:installed-after-a-refused-import', REFUSED[0])
     for imp, _ in imps.values():
         imp.delete_all_graphs()
 
